@@ -75,7 +75,7 @@ func zzThrough(e *env.Env, hop int, v reflect.Value, inner ast.Expr, depth int) 
 var zzTemplates = []string{
 	"neg", "bitnot", "not",
 	"add-l", "add-r", "sub-l", "mul-l", "mul-r", "div-r", "mod-l", "shl-r", "and-l",
-	"lt-l", "lt-r", "eq-l", "eq-r", "andand-l", "oror-r",
+	"lt-l", "lt-r", "eq-l", "eq-r", "andand-l", "oror-r", "nil-coalesce-l", "nil-coalesce-r",
 	"index-item", "index-index", "slice-item", "slice-begin", "len", "in-item", "in-list",
 	"call-callee", "call-arg", "call-spread", "member", "deref", "addr-deref",
 	"for-in", "switch-subject", "switch-case", "if-cond", "loop-cond", "ternary-cond",
@@ -124,6 +124,10 @@ func zzTemplate(e *env.Env, t string, x ast.Expr) ast.Stmt {
 		return ex(zzBinOp("&&", x, zzLit(true)))
 	case "oror-r":
 		return ex(zzBinOp("||", zzLit(false), x))
+	case "nil-coalesce-l":
+		return ex(&ast.NilCoalescingOpExpr{LHS: x, RHS: zzLit("right")})
+	case "nil-coalesce-r":
+		return ex(&ast.NilCoalescingOpExpr{LHS: zzLit(nil), RHS: x})
 	case "index-item":
 		return ex(&ast.ItemExpr{Item: x, Index: zzLit(int64(0))})
 	case "index-index":
